@@ -32,5 +32,7 @@ def main (args : List String) : IO UInt32 := do
   | ["build"] => loop stdin stdout buildLine; return 0
   | ["params"] => loop stdin stdout paramsLine; return 0
   | ["wrapper"] => loop stdin stdout wrapperLine; return 0
+  | ["b3d"] => loop stdin stdout b3dLine; return 0
+  | ["cli"] => loop stdin stdout cliLine; return 0
   | ["atoms-oracle"] => loop stdin stdout AtomsOracle.check; return 0
   | _ => IO.eprintln "usage: optrs-model <stream>"; return 2
